@@ -14,6 +14,9 @@ values, calendars) x values, all executed on the real pattern classes:
   hash-collisions (merged into 'history')  per type a lattice of values (24 consecutive days x 0..5000 ns, ...) is grouped
             by the library's own hash(); the members of every collision group are formatted and their texts parsed
             consecutively through ONE pattern object and compared with a second object that did something else in between
+  interposed (merged into 'history')  a catalogue of calls that fail part-way (None, value of another type, values that
+            stop answering after k attribute reads, another pattern failing, repr of an unnameable month, garbage parse,
+            append_format into a raising builder) placed at every position of a format sequence: later answers unchanged
   history   ONE pattern object used for a sequence of parses and formats in which every ordered pair of operations
             occurs consecutively (sequential and interleaved), every answer compared with the answer of a freshly
             created pattern that has done nothing else
@@ -613,6 +616,7 @@ def pattern_list(kind, tier):
     pats = list(G.fixed_patterns(kind)) + list(G.custom_patterns(kind, k, reduce_from, 3 if reduce_from == 2 else None))
     if kind == "datetime":
         pats += list(G.datetime_composites(1, tier == "thorough"))
+    pats += list(G.embedded_standard(kind))
     return tuple(pats)
 
 
@@ -632,7 +636,9 @@ def check_custom_pattern(acc, hacc, kind, tier, pat, reps, rot, do_history):
     """Everything done for one generated pattern: cultures x configurations x values, then the shared-object history."""
     cfgs = configs(kind, tier)
     comp = T.relevant_class_components(pat.text, pat.names)
-    if comp:
+    if pat.delim == "emb-std":
+        cnames = [name for name, _ in reps]       # a standard letter hides what it depends on: every representative
+    elif comp:
         # one representative per class of the partition restricted to what this pattern can depend on
         seen_keys, cnames = set(), []
         for name, key in reps:
@@ -643,7 +649,7 @@ def check_custom_pattern(acc, hacc, kind, tier, pat, reps, rot, do_history):
     else:
         cnames = ("",) + tuple(rot)
     for ci, cname in enumerate(cnames):
-        spec = T.spec_of_pat(pat, props(cname))
+        spec = T.spec_of_pat(pat, props(cname)) if pat.fields else None
         base = create(acc, kind, pat.text, cname, True, spec, pat.delim)
         if base is None:
             continue
@@ -681,7 +687,7 @@ def check_custom_pattern(acc, hacc, kind, tier, pat, reps, rot, do_history):
             tcal = tmpl[0] if kind in ("date", "datetime", "instant") else None
             small = kind in ("datetime", "instant") and (tier == "quick" or len(pat.fields) > 2)
             values = value_alphabet(kind, tcal, "cal" in pat.names, small, tier == "thorough")
-            c = Case(kind, pat.text, cname, label, p, tmpl, spec, True, pat.delim)
+            c = Case(kind, pat.text, cname, label, p, tmpl, spec, spec is not None, pat.delim)
             good = run_case(acc, c, values, tw)
             if do_history and cname == "" and good and (li == 0 or len(pat.fields) == 1):
                 def make_fresh(kind=kind, text=pat.text, label=label):
@@ -702,6 +708,9 @@ def custom_worker(task):
 def standard_expansion(kind, letter, P: T.Props):
     """The custom text a culture-dependent standard pattern stands for (documented mapping), or None."""
     pt = P.patterns
+    inv = INVARIANT_EXPANSIONS.get(kind, {}).get(letter)
+    if inv is not None:
+        return inv
     try:
         if kind == "date":
             return {"d": pt["short_date_pattern"], "D": pt["long_date_pattern"], "M": pt["month_day_pattern"]}.get(letter)
@@ -717,6 +726,17 @@ def standard_expansion(kind, letter, P: T.Props):
         return None
     return None
 
+
+# documented texts of the culture-invariant standard letters
+_ISO_DT = "uuuu'-'MM'-'dd'T'HH':'mm':'ss"
+INVARIANT_EXPANSIONS = {
+    "date": {"R": "uuuu'-'MM'-'dd", "r": "uuuu'-'MM'-'dd '('c')'"},
+    "time": {"o": "HH':'mm':'ss;FFFFFFFFF", "O": "HH':'mm':'ss;fffffffff"},
+    "datetime": {"o": _ISO_DT + "'.'fffffff", "O": _ISO_DT + "'.'fffffff", "r": _ISO_DT + "'.'fffffffff '('c')'", "R": _ISO_DT + "'.'fffffffff",
+                 "s": _ISO_DT, "S": _ISO_DT + ";FFFFFFFFF"},
+    "instant": {"g": "uuuu'-'MM'-'dd'T'HH':'mm':'ss'Z'"},
+    "annual": {"G": "MM'-'dd"},
+}
 
 # standard letters whose expansion depends on the culture (the others return the invariant built-ins)
 CULTURE_DEPENDENT = {"offset": ("g", "G", "l", "m"), "duration": (), "time": ("t", "T", "r"), "date": ("d", "D", "M"),
@@ -750,6 +770,18 @@ def standard_worker(task):
                     values = values[1:4]      # invariant standard patterns: same objects in every culture
                 c = Case(kind, letter, cname, "default", base, tmpl, spec, safe, "std")
                 run_case(acc, c, values, twin)
+                if cname == "" and kind in ("date", "datetime") and spec is not None and safe:
+                    # standard letters under the template configurations as well (invariant culture)
+                    for label, _ in configs(kind, tier):
+                        if label == "default" or label.startswith("2dy=") and "yoe" not in spec.names:
+                            continue
+                        if label == "cal=Badi" and "mtext" in spec.names:
+                            continue
+                        p2, tmpl2 = _with_cfg(acc, kind, base, label, letter, cname)
+                        if p2 is None:
+                            continue
+                        vals2 = value_alphabet(kind, tmpl2[0], "cal" in spec.names, True)
+                        run_case(acc, Case(kind, letter, cname, label, p2, tmpl2, spec, True, "std"), vals2, None)
         for kind, text in SINGLE_TEXT:
             spec, safe = T.scan(kind, text, P)
             base = create(acc, kind, text, cname, True, spec, "single")
@@ -1070,6 +1102,132 @@ def collision_worker(task):
     return acc
 
 # ---------------------------------------------------------------------------------------------------------------
+# failed call interposed: a call that fails (after having done part of its work) must not change later answers
+# ---------------------------------------------------------------------------------------------------------------
+
+class _FailingProxy:
+    """Looks like `value` for its first `n` attribute reads, then raises: a format call on it stops part-way."""
+
+    def __init__(self, value, n):
+        object.__setattr__(self, "_v", value)
+        object.__setattr__(self, "_n", n)
+
+    def __getattr__(self, name):
+        n = object.__getattribute__(self, "_n")
+        if n <= 0:
+            raise AttributeError("value refuses attribute %r" % name)
+        object.__setattr__(self, "_n", n - 1)
+        return getattr(object.__getattribute__(self, "_v"), name)
+
+
+class _RaisingBuilder:
+    """A builder whose second append raises (append_format must not leave anything behind in the pattern)."""
+
+    def __init__(self):
+        self.calls = 0
+        self.length = 0
+
+    def append(self, text):
+        self.calls += 1
+        if self.calls > 1:
+            raise RuntimeError("builder full")
+        self.length += len(str(text))
+        return self
+
+    def __getitem__(self, i):
+        return "x"
+
+
+def failing_calls(kind, values):
+    """[(label, callable(pattern))]: calls that raise or fail on the unchanged tree, most of them after having written
+    part of their output.  The same catalogue for every type."""
+    import pyoda_time as pt
+    wrong = {"date": pt.LocalTime(1, 2, 3), "time": pt.LocalDate(1999, 12, 31), "datetime": pt.LocalDate(1999, 12, 31),
+             "instant": pt.LocalDate(1999, 12, 31), "offset": pt.LocalDate(1999, 12, 31), "duration": pt.LocalDate(1999, 12, 31),
+             "annual": pt.LocalTime(1, 2, 3)}[kind]
+    badi = pt.LocalDate(180, 19, 1, CalendarSystem.for_id("Badi"))
+    month_names = LocalDatePattern.create_with_invariant_culture("dd MMMM")
+    out = [
+        ("format(None)", lambda p: p.format(None)),
+        ("format(value of another type)", lambda p: p.format(wrong)),
+        ("format(value that fails after 1 attribute read)", lambda p: p.format(_FailingProxy(values[0], 1))),
+        ("format(value that fails after 2 attribute reads)", lambda p: p.format(_FailingProxy(values[0], 2))),
+        ("format(value that fails after 4 attribute reads)", lambda p: p.format(_FailingProxy(values[-1], 4))),
+        ("another pattern fails part-way (month name of Badi month 19)", lambda p: month_names.format(badi)),
+        ("repr() of a Badi date in month 19", lambda p: repr(badi)),
+        ("parse of garbage", lambda p: p.parse("\0garbage").value),
+        ("parse(None)", lambda p: p.parse(None).value),
+        ("append_format into a builder that raises", lambda p: p.append_format(values[0], _RaisingBuilder())),
+    ]
+    return out
+
+
+def interposed_check(acc, keyprefix, kind, label, pat, values):
+    """For every failing call F and every position: [format(v1), F, format(v2), F, format(v3)] restricted to one
+    interposition at a time - every later answer (text, and the parse of that text) must equal the answer of the
+    undisturbed sequence."""
+    vs = list(values[:3])
+    if len(vs) < 2:
+        return
+    try:
+        base = [pat.format(v) for v in vs]
+        base_parse = [observe(pat, ("parse", t)) for t in base]
+    except Exception as e:  # noqa: BLE001
+        if exc_origin(e) == "harness":
+            raise
+        acc.outcome("interposed: baseline not formattable")
+        return
+    for flabel, fcall in failing_calls(kind, vs):
+        for pos in range(len(vs)):
+            outcome = "returned"
+            got = []
+            for i, v in enumerate(vs):
+                if i == pos:
+                    try:
+                        fcall(pat)
+                    except BaseException as e:  # noqa: BLE001
+                        outcome = "raised " + type(e).__name__
+                acc.count(states=1, transitions=2, evaluations=1)
+                try:
+                    t = pat.format(v)
+                    got.append((t, observe(pat, ("parse", t))))
+                except Exception as e:  # noqa: BLE001
+                    if exc_origin(e) == "harness":
+                        raise
+                    got.append(("raised " + type(e).__name__, None))
+            acc.outcome("interposed call %s" % outcome)
+            for i in range(len(vs)):
+                if got[i][0] != base[i] or (got[i][1] is not None and got[i][1] != base_parse[i]):
+                    acc.violation("%s/interposed-failure/%s" % (keyprefix, label),
+                                  "%s: after the failing call <%s> (it %s) placed before format #%d, format(%s) answers %r instead of %r" % (
+                                      label, flabel, outcome, pos + 1, short(vs[i]), got[i][0], base[i]),
+                                  {"kind": kind, "pattern": label, "failing_call": flabel, "position": pos})
+                    # one successful clean call may be needed to get the pattern machinery back to normal
+                    try:
+                        pat.format(vs[0])
+                    except Exception:  # noqa: BLE001
+                        pass
+                    return
+        acc.count(nontrivial=1)
+
+
+def interposed_worker(kind):
+    acc = Acc()
+    values = [T.to_lib(kind, v) for v in value_alphabet(kind, "ISO" if kind in ("date", "datetime", "instant") else None, False, True)[1:4]]
+    for label, attr in collision_patterns(kind):
+        try:
+            pat = getattr(KCLS[kind], attr) if attr is not None else KCLS[kind].create(label, CultureInfo.invariant_culture)
+        except AttributeError:
+            continue
+        interposed_check(acc, "C07/%s" % kind, kind, label, pat, values)
+    for fp in G.fixed_patterns(kind):
+        pat = create(acc, kind, fp.text, "", True, None, "fixed")
+        if pat is not None:
+            interposed_check(acc, "C07/%s" % kind, kind, fp.text, pat, values)
+    return acc
+
+
+# ---------------------------------------------------------------------------------------------------------------
 # driver
 # ---------------------------------------------------------------------------------------------------------------
 
@@ -1122,6 +1280,9 @@ def run(ctx):
     if not only or "hash-collisions" in only:
         tasks = [(k, i) for k in G.KINDS for i in range(len(collision_patterns(k)))]
         for acc in pmap(collision_worker, sorted(tasks, key=lambda t: (t[0] not in ("datetime", "instant"), t))):
+            ctx.merge_part("history", acc)
+    if not only or "interposed" in only:
+        for acc in pmap(interposed_worker, list(G.KINDS)):
             ctx.merge_part("history", acc)
     if not only or "fraction-digits" in only:
         total = 20_000 + 10**9 // FRACTION_STRIDE // (1 if tier == "thorough" else 2)
